@@ -323,7 +323,7 @@ impl ConnectionPool {
                 let old_pool_ref = get_pool(pool_name, &user.username);
                 let identifier = PoolIdentifier::new(pool_name, &user.username);
 
-                if let Some(pool) = old_pool_ref {
+                if let Some(pool) = &old_pool_ref {
                     // If the pool hasn't changed, get existing reference and insert it into the new_pools.
                     // We replace all pools at the end, but if the reference is kept, the pool won't get re-created (bb8).
                     if pool.config_hash == new_pool_hash_value {
@@ -335,6 +335,8 @@ impl ConnectionPool {
                         continue;
                     }
                 }
+                // The pool we are about to replace, if any.
+                let replaced_pool = old_pool_ref;
 
                 info!(
                     "[pool: {}][user: {}] creating new pool",
@@ -590,8 +592,16 @@ impl ConnectionPool {
                         },
                     }),
                     validated: Arc::new(AtomicBool::new(false)),
-                    paused: Arc::new(AtomicBool::new(false)),
-                    paused_waiter: Arc::new(Notify::new()),
+                    // A pool that replaces a changed one keeps its pause state: clients parked
+                    // on the old pool must still be reached by RESUME.
+                    paused: match &replaced_pool {
+                        Some(old) => old.paused.clone(),
+                        None => Arc::new(AtomicBool::new(false)),
+                    },
+                    paused_waiter: match &replaced_pool {
+                        Some(old) => old.paused_waiter.clone(),
+                        None => Arc::new(Notify::new()),
+                    },
                     prepared_statement_cache: match pool_config.prepared_statements_cache_size {
                         0 => None,
                         _ => Some(Arc::new(Mutex::new(PreparedStatementCache::new(
